@@ -272,7 +272,26 @@ func c06Chunk(line string) (string, []Fail) {
 			if b.Len() > 0 {
 				code = c06HashCode(b.Slice()[0].Sequence(), chunks)
 			}
-			got = append(got, ch{code, c06Ids(b.Slice())})
+			ids := c06Ids(b.Slice())
+			if mode == "disk" && b.Len() > 1 {
+				// Load() appends the batches of the reader in arrival order: the order inside a re-read chunk
+				// depends on the scheduling (the reader cuts the file before its last record)
+				l := strings.Split(ids, ",")
+				if !sort.StringsAreSorted(l) && strings.Join(l, ",") != "" {
+					in := make([]string, 0, len(l))
+					for i := range recs {
+						if c06HashCode(recs[i].seq, chunks) == code {
+							in = append(in, c06hs(recs[i].id))
+						}
+					}
+					if strings.Join(in, ",") != ids {
+						stat("chunk:disk:reordered-by-load")
+					}
+				}
+				sort.Strings(l)
+				ids = strings.Join(l, ",")
+			}
+			got = append(got, ch{code, ids})
 			total += b.Len()
 			if mode == "disk" {
 				for _, s := range b.Slice() {
@@ -310,7 +329,11 @@ func c06Chunk(line string) (string, []Fail) {
 			fails = append(fails, Fail{"chunk.split." + mode, fmt.Sprintf("two chunks for code %d", c.code)})
 		}
 		seen[c.code] = true
-		if c.ids != strings.Join(exp[c.code], ",") {
+		e := append([]string{}, exp[c.code]...)
+		if mode == "disk" {
+			sort.Strings(e)
+		}
+		if c.ids != strings.Join(e, ",") {
 			fails = append(fails, Fail{"chunk.content." + mode, fmt.Sprintf("code %d: expected %v got %s", c.code, exp[c.code], c.ids)})
 		}
 	}
@@ -337,6 +360,60 @@ func c06Pipe(line string) (string, []Fail) {
 	u = append(u, f[8:]...)
 	stat("pipe")
 	return c06{}.Exec(strings.Join(u, " "))
+}
+
+// c06Idem: `idem s=<k> <uniq case without the word uniq>`: the real obiuniq on (the real obiuniq of the first k records)
+// followed by the other records; oracle: the recount of the whole input (dereplicating an already dereplicated part
+// again changes nothing: counts, merged_ maps, kept annotations)
+func c06Idem(line string) (string, []Fail) {
+	f := strings.Fields(line)
+	if len(f) < 3 || !strings.HasPrefix(f[1], "s=") {
+		caseTrivial = true
+		return "bad-op", nil
+	}
+	sp, err := strconv.Atoi(f[1][2:])
+	c, ok := c06Parse("uniq " + strings.Join(f[2:], " "))
+	if err != nil || !ok || sp < 0 || c.ns || c.hasDm {
+		caseTrivial = true
+		return "bad-op", nil
+	}
+	if sp > len(c.recs) {
+		sp = len(c.recs)
+	}
+	if c.disk && os.Getenv("C06_CHILD") == "" {
+		return c06Child(line)
+	}
+	stat("idem")
+	var got []string
+	res := guardT(60*time.Second, func() string {
+		in := make([]*obiseq.BioSequence, len(c.recs))
+		for i := range c.recs {
+			in[i] = c.recs[i].build(i)
+		}
+		out1, err := c.runUniq(in[:sp])
+		if err != nil {
+			return "err"
+		}
+		out2, err := c.runUniq(append(append([]*obiseq.BioSequence{}, out1...), in[sp:]...))
+		if err != nil {
+			return "err"
+		}
+		got = make([]string, len(out2))
+		for i, s := range out2 {
+			got[i] = c06Canon(s, c.stats)
+		}
+		return c06ShowAll("U", append([]string{}, got...))
+	})
+	if res == "panic" || res == "fatal" || res == "hang" || res == "err" {
+		return res, []Fail{{"idem." + res, "dereplication ended with " + res}}
+	}
+	var fails []Fail
+	exp, _, _ := c.expected(c.recs)
+	sort.Strings(got)
+	if strings.Join(exp, " ") != strings.Join(got, " ") {
+		fails = append(fails, Fail{"idem.differs", c06Diff(exp, got)})
+	}
+	return res, fails
 }
 
 // ---- big cases ---------------------------------------------------------------------------------------------
@@ -550,6 +627,21 @@ func c06GenChunk(rng *rand.Rand, tier string, emit func(string)) {
 		emit(fmt.Sprintf("pipe c=%d w=%d sched=%s ns=%d na=%s cats=%s stats=%s %s", []int{1, 2, 3, 7, 16}[rng.Intn(5)], w, s, nsf,
 			c06hs(na), c06List(c06Subset(rng, []string{"sample", "run", "n_lib"}, 2)),
 			c06List(c06Subset(rng, []string{"sample", "tag", "n_lib", "run"}, 2)), recsLine(recs)))
+	}
+	// an already dereplicated part merged again with new records
+	emit("idem s=3 mem c=7 w=2 b=2 ns=0 na=4e41 cats=- stats=73 dm=* 61:61636774:-:73=s78:- 62:61636774:3:73=s79,7a=i5:- 63:61636774:2:-:73~78=1~7a=1 64:6161:-:-:- 65:61636774:-:73=s78:-")
+	ni := 50
+	if tier == "thorough" {
+		ni = 200
+	}
+	for i := 0; i < ni; i++ {
+		na := []string{"NA", "", "x1"}[rng.Intn(3)]
+		n := 1 + rng.Intn(40)
+		recs := c06GenRecs(rng, n, na, rng.Intn(2) == 0)
+		cc := c06Case{na: na, cats: c06Subset(rng, []string{"sample", "run", "n_lib"}, 2),
+			stats: c06Subset(rng, []string{"sample", "tag", "n_lib", "run"}, 2), recs: recs,
+			chunks: []int{1, 2, 7, 100}[rng.Intn(4)], workers: 1 + rng.Intn(8), bsize: 1 + rng.Intn(n+1), disk: rng.Intn(4) == 0}
+		emit(fmt.Sprintf("idem s=%d %s", rng.Intn(n+1), strings.TrimPrefix(cc.line(), "uniq ")))
 	}
 	// large inputs: few classes / all distinct / heavy skew
 	if tier == "thorough" {
